@@ -167,6 +167,52 @@ def e1(prog: Program, chk: Check) -> None:
     chk.extra["unitary_consumers"] = consumers
 
 
+def rotation_per_case(prog: Program, chk: Check, rule: str) -> None:
+    """With and without degeneracy reduction the dk=0 tensor of the TEMPO back end takes the
+    same rotation into the system basis."""
+    u = prog.unit("backends.tempo_backend:BaseTempoBackend.initialize_mps_mpo")
+    du0 = DefUse(u, CFG(u.node, exc_edges=False))
+    chk.saw(u, du0.cfg)
+    # with and without degeneracy reduction the dk=0 tensor takes the same rotation: on the
+    # paths of either case, as right factors of np.dot, LRS(U^dagger, U) as it is on the input
+    # side and LRS(U, U^dagger) transposed on the output side (the convention of
+    # transform_in / transform_out); any other use of the two superoperators is reported
+    from oqv import pathcond as pc
+    g0 = du0.cfg
+    for unique in (True, False):
+        dec = pc.none_decider(lambda e: dotted(e) == "self._degeneracy_maps", not unique)
+        case = pc.Case(du0, lambda nid, e, dec=dec: dec(e), f"unique={unique}")
+        reach = case.reachable()
+        uses = {"self._super_u": [], "self._super_u_dagg": []}
+        other = []
+        for n in g0.nodes:
+            if n.id not in reach or n.copy_of:
+                continue
+            dots = [c for c in n.calls() if (dotted(c.func) or "").split(".")[-1] == "dot"]
+            in_dot = set()
+            for c in dots:
+                for a in c.args:
+                    base, par = a, 0
+                    while isinstance(base, ast.Attribute) and base.attr == "T":
+                        base, par = base.value, par + 1
+                    if dotted(base) in uses:
+                        uses[dotted(base)].append(par % 2)
+                        in_dot.add(id(base))
+            for x in n.walk():
+                if isinstance(x, ast.Attribute) and dotted(x) in uses and id(x) not in in_dot \
+                        and isinstance(x.ctx, ast.Load) and n.kind == "stmt" \
+                        and not (isinstance(n.ast, ast.Assign)
+                                 and any(dotted(t) == dotted(x) for t in n.ast.targets)):
+                    other.append(norm(n.ast)[:60])
+        ok = uses == {"self._super_u": [1], "self._super_u_dagg": [0]} and not other
+        chk.add(rule, u, f"[{'with' if unique else 'without'} degeneracy reduction] dk=0 tensor "
+                f"rotated once by each of {sorted(uses)}", ok,
+                "super_u_dagg as it is, super_u transposed" if ok else
+                f"uses (transposed?) {uses}, other uses {other}: expected one np.dot with "
+                f"self._super_u_dagg untransposed and one with self._super_u transposed in this "
+                f"case as in the other")
+
+
 def e2(prog: Program, chk: Check, rule: str = "E2") -> None:
     chk.rule(rule, "each consumer builds the pair left_right_super(U, U^dagger) / "
              "left_right_super(U^dagger, U): the one named *_dagg / transform_in carries "
@@ -250,22 +296,7 @@ def e2(prog: Program, chk: Check, rule: str = "E2") -> None:
                     ctor[0])
     # both superoperators are applied to the dk=0 tensor / handed over under the right keyword
     u = prog.unit(sites[0])
-    uses = {"self._super_u": [], "self._super_u_dagg": []}
-    for c in walk_local(u.node):
-        if isinstance(c, ast.Call) and (dotted(c.func) or "").split(".")[-1] == "dot":
-            for a in c.args:
-                base, par = a, 0
-                while isinstance(base, ast.Attribute) and base.attr == "T":
-                    base, par = base.value, par + 1
-                if dotted(base) in uses:
-                    uses[dotted(base)].append(par % 2)
-    # as right factors of np.dot: the input side takes LRS(U^dagger, U) as it is, the output
-    # side LRS(U, U^dagger) transposed (same convention as transform_in / transform_out)
-    ok = uses == {"self._super_u": [1], "self._super_u_dagg": [0]}
-    chk.add(rule, u, f"dk=0 tensor rotated once by each of {sorted(uses)}", ok,
-            "super_u_dagg as it is, super_u transposed" if ok else
-            f"uses (transposed?) {uses}: expected one use of self._super_u_dagg untransposed and "
-            f"one of self._super_u transposed")
+    rotation_per_case(prog, chk, rule)
 
 
 def e4(prog: Program, chk: Check) -> None:
